@@ -21,7 +21,23 @@ def setup_env():
         sys.path.insert(0, repo)
 
 
+def _die_with_parent():
+    """a worker must not outlive its runner (a killed / timed-out check would otherwise keep 16 cores busy)"""
+    import threading
+
+    ppid = os.getppid()
+
+    def watch():
+        while True:
+            time.sleep(2)
+            if os.getppid() != ppid:
+                os._exit(3)
+
+    threading.Thread(target=watch, daemon=True).start()
+
+
 def main():
+    _die_with_parent()
     ap = argparse.ArgumentParser()
     ap.add_argument("pid")
     ap.add_argument("--tier", default="quick")
